@@ -150,6 +150,29 @@ def check_routing(ctx, num=1):
                construct="results.extend(pool_results); return results", detail=f"extend sites: {[norm.U(e) for e in ext]}; returns: {[stmt_text(r) for r in rets]}")
 
 
+def check_every_pool_ticked(ctx, num=1):
+    """Every pool runs its tick in every executor tick, whether or not it received a command: containers that are running or being
+    written out make progress only there."""
+    P = ctx.P
+    f = P.fn(EX, "Executor.run_one_tick")
+    ctx.touch(f)
+    g = cfg_of(f, subst_env=False)
+    route_calls = [c for c in calls_named(f, "run_one_tick") if isinstance(c.func, ast.Attribute)]
+    ctx.count_min("pool.run_one_tick call sites in Executor.run_one_tick", len(route_calls), 1)
+    for c in route_calls:
+        lp = enclosing_for(c, f.node)
+        ok = lp is not None and norm.U(lp.iter) in ("range(self.num_pools)", "range(len(self.pools))", "self.pools", "enumerate(self.pools)")
+        d = f"loop: {stmt_text(lp) if lp else None}"
+        if ok:
+            hid = g.node_of(lp).id
+            skip = g.path_avoiding(hid, {hid, g.exit.id}, {g.node_of(c).id}, edge_ok=lambda a, b, lab, hid=hid: not (a == hid and lab == "done"))
+            byp = g.path_avoiding(g.entry.id, {g.exit.id}, {hid})
+            early = g.path_avoiding(g.node_of(c).id, {g.exit.id}, {hid})    # leaving from inside the loop body without returning to the header
+            ok = skip is None and byp is None and early is None
+            d += f"; a pool can be skipped: {skip is not None}; the loop can be bypassed: {byp is not None}; the loop can be left early: {early is not None}"
+        ctx.ob(num, "K3", "every pool runs its tick in every executor tick (with or without commands for it)", ok, f, c, construct="for every pool: pool.run_one_tick(...)", detail=d)
+
+
 def check_results(ctx, num=3):
     P = ctx.P
     pa = pool.pool_analysis(P)
@@ -346,6 +369,7 @@ def check_validation_order(ctx, num=6):
 
 def run(ctx):
     check_routing(ctx, 1)
+    check_every_pool_ticked(ctx, 1)
     c02.check_container_factory(ctx, 2)
     pool.ob_moves_classified(ctx, 2)
     pool.ob_deltas(ctx, 3, amounts=False, conditions=True)
